@@ -114,6 +114,8 @@ def gen(rng, tier, index):
                     dist = (j + len(d) - pos) if j >= 0 else rem
                     mx = max(1, rng.choice([dist - 1, dist, dist, dist + 1, dist + 1, dist // 2,
                                             dist * 2, dist * 2]))
+                    if rng.random() < 0.06:
+                        mx = 0  # legal limit: the first buffered byte makes the read unsatisfiable
                 else:
                     mx = rng.choice([1, 2, 5, 20, 100, 5000])
             ops.append({"op": "until", "delim": "hex:" + d.hex(), "max": mx, "pause": pause})
@@ -122,7 +124,7 @@ def gen(rng, tier, index):
                 pos = (j + len(d)) if j >= 0 and (mx is None or j + len(d) - pos <= mx) else None
         elif k < 0.93:
             r = rng.choice(REGEXES)
-            mx = rng.choice([None, None, 1, 3, 10, 50, 1000])
+            mx = rng.choice([None, None, None, None, 1, 3, 10, 50, 1000, 1, 3, 10, 50, 1000, 0])
             ops.append({"op": "regex", "re": r.decode("latin1"), "max": mx, "pause": pause})
             pos = None
         else:
@@ -171,6 +173,23 @@ def gen(rng, tier, index):
         # exactly the stream length: the buffer can never hold more than the limit, so the
         # limit must never trip ("reached" is not "exceeded")
         mbs = len(data)
+    if not big and rng.random() < 0.12:
+        # small buffer, bounded reads: every read needs at most `need` buffered bytes and the
+        # effective chunk is <= mbs // 2, so the buffer (< need + chunk <= mbs) can never
+        # legitimately overflow, however much the peer sends while the stream sits idle
+        for o in ops:
+            if o["op"] in ("bytes", "into"):
+                o["n"] = min(o["n"], 64)
+            elif o["op"] in ("until", "regex"):
+                o["max"] = min(o["max"], 64) if o.get("max") is not None else \
+                    rng.choice([5, 20, 50, 64])
+            elif o["op"] == "close":
+                o.clear()
+                o.update({"op": "bytes", "n": 1, "partial": False, "pause": -1})
+            if rng.random() < 0.5:
+                o["pause"] = rng.choice([-1, -1, 5])
+        need = max([1] + [o["n"] if o["op"] in ("bytes", "into") else o["max"] for o in ops])
+        mbs = 2 * need + rng.choice([0, 0, 1, 2, 16])
     return {
         "property": ID, "version": 1,
         "knobs": {"read_chunk_size": chunk, "max_buffer_size": mbs,
@@ -186,6 +205,18 @@ def gen(rng, tier, index):
 def validate(scn):
     try:
         data = expand_stream(scn["stream"])
+        mbs = scn["knobs"].get("max_buffer_size")
+        if mbs:
+            # keep the shrinker inside configurations where the buffer limit can never
+            # legitimately trip (mbs < 2 makes read_chunk_size 0, i.e. every recv looks like EOF)
+            if mbs < 2:
+                return False
+            if mbs < len(data):
+                ch = min(scn["knobs"]["read_chunk_size"], mbs // 2)
+                for o in scn["ops"]:
+                    need = o.get("n") if o["op"] in ("bytes", "into") else o.get("max")
+                    if o["op"] == "close" or need is None or need + ch - 1 > mbs:
+                        return False
         return (all(isinstance(s, list) and len(s) == 2 and s[0] >= 1 for s in scn["segments"])
                 and all(isinstance(o, dict) and "op" in o for o in scn["ops"])
                 and scn["knobs"]["read_chunk_size"] >= 1 and len(data) >= 0)
